@@ -642,8 +642,7 @@ func runCase(req string) (obs string) {
 	return strings.Join(parts, " ")
 }
 
-// staleCtx is filled in by stale.go when the stale-context generator is enabled; the default has no way to put the
-// router's (unexported) keys on a context, so it returns a plain context.
+// staleCtx builds a context that already carries router values (stale.go)
 var staleCtx = func(spec string) context.Context { return context.Background() }
 
 // ---------------------------------------------------------------- generators
@@ -743,7 +742,20 @@ func randomCase(rng *wh.Rng) string {
 		n := 1 + rng.Intn(4)
 		for k := 0; k < n; k++ {
 			mid++
-			ds = append(ds, fmt.Sprintf("d=%d:%s:%d:%s", g.sub, wh.HexS(g.topic), mid, shapeOf(rng)))
+			d := fmt.Sprintf("d=%d:%s:%d:%s", g.sub, wh.HexS(g.topic), mid, shapeOf(rng))
+			if rng.Intn(12) == 0 { // the message arrives with an upstream handler's values on its context
+				var keys []int
+				for k := 0; k < 5; k++ {
+					if rng.Intn(2) == 0 {
+						keys = append(keys, k)
+					}
+				}
+				if len(keys) == 0 {
+					keys = []int{4}
+				}
+				d += ":" + staleSpec(keys, "up")
+			}
+			ds = append(ds, d)
 		}
 	}
 	if rng.Intn(3) == 0 {
@@ -810,31 +822,52 @@ func enumPairs(emit func(string, string)) {
 	}
 }
 
-// incoming contexts that already carry an upstream handler's values: handlers with every field non-empty (nothing can
-// show through) and handlers with empty fields (no publisher: empty publish topic; Stringer types with empty names)
-func staleCases(emit func(string, string)) {
-	up := wh.HexS("upstream")
-	for key := 0; key < 5; key++ {
-		spec := strconv.Itoa(key) + "_" + up
-		full := []string{"S1=" + wh.HexS("main.subA"), "P1=" + wh.HexS("main.pubA"),
-			fmt.Sprintf("h=%s:1:%s:p1:%s:0", wh.HexS("full"), wh.HexS("in"), wh.HexS("out")),
-			fmt.Sprintf("d=1:%s:1:c.f0:%s", wh.HexS("in"), spec)}
-		emit("route "+strings.Join(full, " "), "stale.all_fields_set")
-		empty := []string{"S1=-", "P1=-",
-			fmt.Sprintf("h=-:1:-:p1:-:0"),
-			fmt.Sprintf("d=1:-:1:c.f0:%s", spec)}
-		emit("route "+strings.Join(empty, " "), "stale.empty_fields")
+// incoming contexts that already carry an upstream handler's values (a message object / its context handed from one
+// router handler to another in-process): every subset size of the five keys, at handlers with every field non-empty,
+// with every field empty, without publisher (AddNoPublisherHandler: empty publish topic; nil publisher), and two
+// handlers sharing the subscription.  Since fix 5846d09 the handler's own values – empty ones too – must hide them.
+func staleSpec(keys []int, val string) string {
+	es := make([]string, len(keys))
+	for i, k := range keys {
+		es[i] = strconv.Itoa(k) + "_" + wh.HexS(val+"-"+strconv.Itoa(k))
 	}
+	return strings.Join(es, ".")
+}
+
+func staleCases(emit func(string, string)) {
+	all := []int{0, 1, 2, 3, 4}
+	var specs []string
+	for k := 0; k < 5; k++ {
+		specs = append(specs, staleSpec([]int{k}, "upstream"))
+	}
+	specs = append(specs, staleSpec(all, "upstream"), staleSpec([]int{4, 0}, "upstream"), staleSpec([]int{3, 4, 1}, "upstream"))
+	mid := 0
+	for _, spec := range specs {
+		mid++
+		full := []string{"S1=" + wh.HexS("main.subA"), "P1=" + wh.HexS("main.pubA"),
+			fmt.Sprintf("h=%s:1:%s:p1:%s:1", wh.HexS("full"), wh.HexS("in"), wh.HexS("out")),
+			fmt.Sprintf("d=1:%s:%d:c.f0:%s", wh.HexS("in"), mid, spec)}
+		emit("route "+strings.Join(full, " "), "stale.all_fields_set")
+		empty := []string{"S1=-", "P1=-", "h=-:1:-:p1:-:0", fmt.Sprintf("d=1:-:%d:c.f0.c:%s", mid, spec)}
+		emit("route "+strings.Join(empty, " "), "stale.empty_fields")
+		nopub := []string{"S1=" + wh.HexS("main.subA"), "P1=" + wh.HexS("kafka.Publisher"),
+			fmt.Sprintf("h=%s:1:%s:np:-:1", wh.HexS("np"), wh.HexS("in")),
+			fmt.Sprintf("h=%s:1:%s:nil:-:0", wh.HexS("nilpub"), wh.HexS("in")),
+			fmt.Sprintf("h=%s:1:%s:p1:-:0", wh.HexS("emptytopic"), wh.HexS("in")),
+			fmt.Sprintf("d=1:%s:%d:c:%s", wh.HexS("in"), mid, spec),
+			fmt.Sprintf("d=1:%s:%d:-:%s", wh.HexS("in"), mid+100, spec)}
+		emit("route "+strings.Join(nopub, " "), "stale.no_publisher_or_empty_topic")
+	}
+	// the witness input of Wm.Route.Old.stale_context_shows_through
 	np := []string{"S1=" + wh.HexS("main.subA"),
 		fmt.Sprintf("h=%s:1:%s:np:-:0", wh.HexS("b"), wh.HexS("in")),
 		fmt.Sprintf("d=1:%s:1:-:4_%s", wh.HexS("in"), wh.HexS("upstream-topic"))}
-	emit("route "+strings.Join(np, " "), "stale.empty_fields")
+	emit("route "+strings.Join(np, " "), "stale.no_publisher_or_empty_topic")
 }
 
 type job struct{ req, tag string }
 
 func main() {
-	stale := flag.Bool("stale", false, "also generate messages whose incoming context carries an upstream handler's values (finding stale-context-empty-field)")
 	worker := flag.String("worker", "", "internal: run the requests of this file in this process (child of the supervisor)")
 	a := wh.ParseArgs()
 	if *worker != "" {
@@ -862,9 +895,7 @@ func main() {
 	for i := 0; i < nRandom; i++ {
 		emit(randomCase(rng), "random")
 	}
-	if *stale {
-		staleCases(emit)
-	}
+	staleCases(emit)
 	reqs := make([]string, len(jobs))
 	for i, j := range jobs {
 		reqs[i] = j.req
@@ -911,6 +942,9 @@ func main() {
 					out.Count("shape.with_consumed")
 				default:
 					out.Count("shape.fresh")
+				}
+				if len(f) == 5 {
+					out.Count("deliveries.with_stale_context")
 				}
 			}
 		}
